@@ -250,7 +250,9 @@ func runCheck(repo, verif, prop, tier string, verbose bool) int {
 		if fc.Kind == "extern" && fc.Used {
 			trusted = append(trusted, "external contract "+fc.Key)
 		}
-		if fc.Kind == "iface" && fc.Used {
+		if fc.Kind == "iface" && fc.Used && fc.Abstract != "" {
+			trusted = append(trusted, "interface contract "+fc.Key+" ASSUMED for all implementations: "+fc.Abstract)
+		} else if fc.Kind == "iface" && fc.Used {
 			trusted = append(trusted, "interface contract "+fc.Key+" (assumed for implementations outside /repo; every /repo implementation is verified against it)")
 		}
 	}
